@@ -1,6 +1,6 @@
 /-
-G6 `FinInv`: once the receiver of a side has finished (connection loss `cut`, or GATEWAY_TERMINATE),
-its IO is closed, nothing is registered any more and every channel object that is still alive is
+G6 `FinInv`: once the receiver of a side has finished (connection loss `cut`, GATEWAY_TERMINATE, or a
+callback failing after the IO was closed), its IO is closed, nothing is registered any more and every channel object that is still alive is
 `rclosed`.  Corollaries C04: operations are refused / never block after the receiver finished.
 -/
 import ExecnetVerif.Proofs.Net.ClosePlumbing
@@ -85,9 +85,17 @@ theorem FinSide_chanClose {x : SideSt} (id : Nat) (err : Option Nat) (h : FinSid
 theorem FinSide_handle (fails : Item → Bool) {x : SideSt} (w : Bool) (f : Frame) (hf : x.finished = false)
     (hS : ∀ id, (x.chans id).alive = true → (x.chans id).registered = false → (x.chans id).rclosed = true) :
     FinSide (handle fails x w f) := by
-  by_cases ht : f = .terminate
-  · subst ht; exact FinSide_epilogue false hS
-  · exact FinSide_of_not_finished (by rw [handle_finished fails x w f ht]; exact hf)
+  cases he : endsReceiver fails x f
+  · exact FinSide_of_not_finished (by rw [handle_finished fails x w f he]; exact hf)
+  · rcases handle_of_endsReceiver fails x w f he with h | ⟨id, v, _, h⟩ <;> rw [h]
+    · exact FinSide_epilogue false hS
+    · -- a failing callback after the IO was closed: the epilogue runs on the state in which the
+      -- channels contained in the item have been registered
+      refine FinSide_epilogue false (fun j ha hr => ?_)
+      rw [cbAccept_chans] at ha hr ⊢
+      rcases registerAll_chans_cases (dataPre x id v) v.chans j with h1 | h1
+      · rw [h1] at ha hr ⊢; exact hS j ha hr
+      · rw [h1] at hr; cases hr
 
 theorem FinInv_step (fails : Item → Bool) (st : State) (op : Op) :
     ShapeInv st → FinInv st → FinInv (step fails st op).2 := by
